@@ -18,7 +18,8 @@
    (NewNatFromBig truncates).  A capacity argument < 0 means "default", as in
    saferith.  Every entry of [table] maps the argument list of one harness
    operation to a result [res]. *)
-From Coq Require Import List ZArith NArith Lia Bool String Ascii Zeuclid.
+From Coq Require Import List ZArith NArith Lia Bool Zeuclid.
+From Coq.Strings Require Import Byte.
 Require Import V.base.Bytes.
 Import ListNotations.
 Local Open Scope Z_scope.
@@ -346,12 +347,19 @@ Definition rat_canon (a b : Z) : Z * Z :=
 
 (* ------------------------------------------------------------------ operation table *)
 
-Definition opcode (s : string) : Z :=
-  (fix go (s : string) (acc : Z) : Z :=
-     match s with
-     | EmptyString => acc
-     | String c r => go r (acc * 256 + Z.of_N (N_of_ascii c))
-     end) s 0.
+(* operation names: string literals parsed into a private inductive (so that the
+   extracted code contains no string type); the code of a name is its bytes read
+   as a big-endian integer *)
+Inductive opname : Set := OpName (cs : list N).
+Definition opname_of_bytes (l : list Byte.byte) : opname := OpName (map Byte.to_N l).
+Definition opname_to_bytes (o : opname) : list Byte.byte :=
+  match o with OpName cs => flat_map (fun c => match Byte.of_N c with Some b => [b] | None => [] end) cs end.
+Declare Scope opname_scope.
+Delimit Scope opname_scope with opname.
+String Notation opname opname_of_bytes opname_to_bytes : opname_scope.
+
+Definition opcode (s : opname) : Z :=
+  match s with OpName cs => fold_left (fun acc c => acc * 256 + Z.of_N c) cs 0 end.
 
 Definition opt1 (o : option Z) : res := match o with Some v => Ok [v] | None => Refuse end.
 Definition okb (b : bool) : res := Ok [b2z b].
@@ -361,79 +369,77 @@ Definition split_half (l : list Z) : list Z * list Z :=
 
 Definition cmp3 (x y : Z) : list Z := [b2z (x <? y); b2z (x =? y); b2z (y <? x)].
 
-Local Open Scope string_scope.
-Local Open Scope Z_scope.
 Definition table : list (Z * (list Z -> res)) :=
-  let e (s : string) (f : list Z -> res) := (opcode s, f) in
+  let e (s : opname) (f : list Z -> res) := (opcode s, f) in
   [ (* ---- numct.Nat: operands (v, a) *)
-    e "nat.set" (fun a => match a with [x; ax] => Ok [trunc ax x] | _ => Panic end);
-    e "nat.add" (fun a => match a with [x; ax; y; ay; c] => Ok [add_cap (trunc ax x) ax (trunc ay y) ay c] | _ => Panic end);
-    e "nat.sub" (fun a => match a with [x; ax; y; ay; c] => Ok [sub_cap (trunc ax x) ax (trunc ay y) ay c] | _ => Panic end);
-    e "nat.mul" (fun a => match a with [x; ax; y; ay; c] => Ok [mul_cap (trunc ax x) ax (trunc ay y) ay c] | _ => Panic end);
-    e "nat.lsh" (fun a => match a with [x; ax; s; c] => Ok [lsh_cap (trunc ax x) ax s c] | _ => Panic end);
-    e "nat.rsh" (fun a => match a with [x; ax; s; c] => Ok [rsh_cap (trunc ax x) ax s c] | _ => Panic end);
-    e "nat.and" (fun a => match a with [x; ax; y; ay; c] => Ok [and_cap (trunc ax x) ax (trunc ay y) ay c] | _ => Panic end);
-    e "nat.or" (fun a => match a with [x; ax; y; ay; c] => Ok [or_cap (trunc ax x) ax (trunc ay y) ay c] | _ => Panic end);
-    e "nat.xor" (fun a => match a with [x; ax; y; ay; c] => Ok [xor_cap (trunc ax x) ax (trunc ay y) ay c] | _ => Panic end);
-    e "nat.not" (fun a => match a with [x; ax; c] => Ok [not_cap (trunc ax x) ax c] | _ => Panic end);
-    e "nat.resize" (fun a => match a with [x; ax; c] => Ok [trunc (dflt c ax) (trunc ax x)] | _ => Panic end);
-    e "nat.div" (fun a => match a with [x; ax; y; ay] =>
+    e "nat.set"%opname (fun a => match a with [x; ax] => Ok [trunc ax x] | _ => Panic end);
+    e "nat.add"%opname (fun a => match a with [x; ax; y; ay; c] => Ok [add_cap (trunc ax x) ax (trunc ay y) ay c] | _ => Panic end);
+    e "nat.sub"%opname (fun a => match a with [x; ax; y; ay; c] => Ok [sub_cap (trunc ax x) ax (trunc ay y) ay c] | _ => Panic end);
+    e "nat.mul"%opname (fun a => match a with [x; ax; y; ay; c] => Ok [mul_cap (trunc ax x) ax (trunc ay y) ay c] | _ => Panic end);
+    e "nat.lsh"%opname (fun a => match a with [x; ax; s; c] => Ok [lsh_cap (trunc ax x) ax s c] | _ => Panic end);
+    e "nat.rsh"%opname (fun a => match a with [x; ax; s; c] => Ok [rsh_cap (trunc ax x) ax s c] | _ => Panic end);
+    e "nat.and"%opname (fun a => match a with [x; ax; y; ay; c] => Ok [and_cap (trunc ax x) ax (trunc ay y) ay c] | _ => Panic end);
+    e "nat.or"%opname (fun a => match a with [x; ax; y; ay; c] => Ok [or_cap (trunc ax x) ax (trunc ay y) ay c] | _ => Panic end);
+    e "nat.xor"%opname (fun a => match a with [x; ax; y; ay; c] => Ok [xor_cap (trunc ax x) ax (trunc ay y) ay c] | _ => Panic end);
+    e "nat.not"%opname (fun a => match a with [x; ax; c] => Ok [not_cap (trunc ax x) ax c] | _ => Panic end);
+    e "nat.resize"%opname (fun a => match a with [x; ax; c] => Ok [trunc (dflt c ax) (trunc ax x)] | _ => Panic end);
+    e "nat.div"%opname (fun a => match a with [x; ax; y; ay] =>
         let x := trunc ax x in let y := trunc ay y in
         if y =? 0 then Refuse else Ok [x / y; x mod y] | _ => Panic end);
-    e "nat.sqrt" (fun a => match a with [x; ax] =>
+    e "nat.sqrt"%opname (fun a => match a with [x; ax] =>
         let x := trunc ax x in let r := Z.sqrt x in if r * r =? x then Ok [r] else Refuse | _ => Panic end);
-    e "nat.gcd" (fun a => match a with [x; ax; y; ay] => Ok [Z.gcd (trunc ax x) (trunc ay y)] | _ => Panic end);
-    e "nat.lcm" (fun a => match a with [x; ax; y; ay] => Ok [Z.lcm (trunc ax x) (trunc ay y)] | _ => Panic end);
-    e "nat.coprime" (fun a => match a with [x; ax; y; ay] => okb (Z.gcd (trunc ax x) (trunc ay y) =? 1) | _ => Panic end);
-    e "nat.cmp" (fun a => match a with [x; ax; y; ay] => Ok (cmp3 (trunc ax x) (trunc ay y)) | _ => Panic end);
-    e "nat.bits" (fun a => match a with [x; ax; i] =>
+    e "nat.gcd"%opname (fun a => match a with [x; ax; y; ay] => Ok [Z.gcd (trunc ax x) (trunc ay y)] | _ => Panic end);
+    e "nat.lcm"%opname (fun a => match a with [x; ax; y; ay] => Ok [Z.lcm (trunc ax x) (trunc ay y)] | _ => Panic end);
+    e "nat.coprime"%opname (fun a => match a with [x; ax; y; ay] => okb (Z.gcd (trunc ax x) (trunc ay y) =? 1) | _ => Panic end);
+    e "nat.cmp"%opname (fun a => match a with [x; ax; y; ay] => Ok (cmp3 (trunc ax x) (trunc ay y)) | _ => Panic end);
+    e "nat.bits"%opname (fun a => match a with [x; ax; i] =>
         let x := trunc ax x in
         Ok [bitlen x; b2z (Z.testbit x i); (x / 2 ^ (8 * i)) mod 256; b2z (Z.odd x); b2z (x =? 0); b2z (x =? 1); x mod 2 ^ 64]
         | _ => Panic end);
-    e "nat.setbit" (fun a => match a with [x; ax; i; b] =>
+    e "nat.setbit"%opname (fun a => match a with [x; ax; i; b] =>
         let x := trunc ax x in
         Ok [if b =? 1 then Z.setbit x i else Z.clearbit x i] | _ => Panic end);
-    e "nat.bytes" (fun a => match a with [x; ax] => Ok (nat_bytes (trunc ax x) ax) | _ => Panic end);
-    e "nat.fillbytes" (fun a => match a with [x; ax; k] => Ok (be_bytesZ k (trunc ax x mod pow2 (8 * k))) | _ => Panic end);
-    e "nat.setbytes" (fun a => Ok [be_valueZ a; 8 * Z.of_nat (List.length a)]);
-    e "nat.incdec" (fun a => match a with [x; ax] =>
+    e "nat.bytes"%opname (fun a => match a with [x; ax] => Ok (nat_bytes (trunc ax x) ax) | _ => Panic end);
+    e "nat.fillbytes"%opname (fun a => match a with [x; ax; k] => Ok (be_bytesZ k (trunc ax x mod pow2 (8 * k))) | _ => Panic end);
+    e "nat.setbytes"%opname (fun a => Ok [be_valueZ a; 8 * Z.of_nat (List.length a)]);
+    e "nat.incdec"%opname (fun a => match a with [x; ax] =>
         let x := trunc ax x in
         Ok [add_cap x ax 1 1 (-1); sub_cap x ax 1 1 (-1)] | _ => Panic end);
-    e "nat.select" (fun a => match a with [c; x; ax; y; ay] => Ok [if c =? 1 then trunc ay y else trunc ax x] | _ => Panic end);
-    e "nat.isprime" (fun a => match a with [x; ax] => okb (is_prime_mr (trunc ax x)) | _ => Panic end);
+    e "nat.select"%opname (fun a => match a with [c; x; ax; y; ay] => Ok [if c =? 1 then trunc ay y else trunc ax x] | _ => Panic end);
+    e "nat.isprime"%opname (fun a => match a with [x; ax] => okb (is_prime_mr (trunc ax x)) | _ => Panic end);
     (* ---- numct.Int: operands (v, a), sign kept, magnitude truncated *)
-    e "int.set" (fun a => match a with [x; ax] => Ok [int_in ax x] | _ => Panic end);
-    e "int.add" (fun a => match a with [x; ax; y; ay; c] => Ok [int_add_cap (int_in ax x) ax (int_in ay y) ay c] | _ => Panic end);
-    e "int.sub" (fun a => match a with [x; ax; y; ay; c] => Ok [int_add_cap (int_in ax x) ax (- int_in ay y) ay c] | _ => Panic end);
-    e "int.mul" (fun a => match a with [x; ax; y; ay; c] => Ok [int_mul_cap (int_in ax x) ax (int_in ay y) ay c] | _ => Panic end);
-    e "int.neg" (fun a => match a with [x; ax] => Ok [- int_in ax x; Z.abs (int_in ax x)] | _ => Panic end);
-    e "int.eucdiv" (fun a => match a with [x; ax; y; ay] =>
+    e "int.set"%opname (fun a => match a with [x; ax] => Ok [int_in ax x] | _ => Panic end);
+    e "int.add"%opname (fun a => match a with [x; ax; y; ay; c] => Ok [int_add_cap (int_in ax x) ax (int_in ay y) ay c] | _ => Panic end);
+    e "int.sub"%opname (fun a => match a with [x; ax; y; ay; c] => Ok [int_add_cap (int_in ax x) ax (- int_in ay y) ay c] | _ => Panic end);
+    e "int.mul"%opname (fun a => match a with [x; ax; y; ay; c] => Ok [int_mul_cap (int_in ax x) ax (int_in ay y) ay c] | _ => Panic end);
+    e "int.neg"%opname (fun a => match a with [x; ax] => Ok [- int_in ax x; Z.abs (int_in ax x)] | _ => Panic end);
+    e "int.eucdiv"%opname (fun a => match a with [x; ax; y; ay] =>
         let x := int_in ax x in let y := int_in ay y in
         if y =? 0 then Refuse else Ok [ZEuclid.div x y; ZEuclid.modulo x y] | _ => Panic end);
-    e "int.truncdiv" (fun a => match a with [x; ax; y; ay] =>
+    e "int.truncdiv"%opname (fun a => match a with [x; ax; y; ay] =>
         let x := int_in ax x in let y := int_in ay y in
         if y =? 0 then Refuse else Ok [Z.quot x y; Z.rem x y] | _ => Panic end);
-    e "int.gcd" (fun a => match a with [x; ax; y; ay] => Ok [Z.gcd (int_in ax x) (int_in ay y)] | _ => Panic end);
-    e "int.coprime" (fun a => match a with [x; ax; y; ay] => okb (Z.gcd (int_in ax x) (int_in ay y) =? 1) | _ => Panic end);
-    e "int.cmp" (fun a => match a with [x; ax; y; ay] => Ok (cmp3 (int_in ax x) (int_in ay y)) | _ => Panic end);
-    e "int.sqrt" (fun a => match a with [x; ax] =>
+    e "int.gcd"%opname (fun a => match a with [x; ax; y; ay] => Ok [Z.gcd (int_in ax x) (int_in ay y)] | _ => Panic end);
+    e "int.coprime"%opname (fun a => match a with [x; ax; y; ay] => okb (Z.gcd (int_in ax x) (int_in ay y) =? 1) | _ => Panic end);
+    e "int.cmp"%opname (fun a => match a with [x; ax; y; ay] => Ok (cmp3 (int_in ax x) (int_in ay y)) | _ => Panic end);
+    e "int.sqrt"%opname (fun a => match a with [x; ax] =>
         let x := int_in ax x in
         if x <? 0 then Refuse else let r := Z.sqrt x in if r * r =? x then Ok [r] else Refuse | _ => Panic end);
-    e "int.inv" (fun a => match a with [x; ax] => let x := int_in ax x in if Z.abs x =? 1 then Ok [x] else Refuse | _ => Panic end);
-    e "int.lsh" (fun a => match a with [x; ax; s; c] =>
+    e "int.inv"%opname (fun a => match a with [x; ax] => let x := int_in ax x in if Z.abs x =? 1 then Ok [x] else Refuse | _ => Panic end);
+    e "int.lsh"%opname (fun a => match a with [x; ax; s; c] =>
         let x := int_in ax x in Ok [Z.sgn x * lsh_cap (Z.abs x) ax s c] | _ => Panic end);
-    e "int.rsh" (fun a => match a with [x; ax; s; c] =>
+    e "int.rsh"%opname (fun a => match a with [x; ax; s; c] =>
         let x := int_in ax x in Ok [Z.sgn x * rsh_cap (Z.abs x) ax s c] | _ => Panic end);
-    e "int.resize" (fun a => match a with [x; ax; c] => Ok [int_in (dflt c ax) (int_in ax x)] | _ => Panic end);
-    e "int.bits" (fun a => match a with [x; ax] =>
+    e "int.resize"%opname (fun a => match a with [x; ax; c] => Ok [int_in (dflt c ax) (int_in ax x)] | _ => Panic end);
+    e "int.bits"%opname (fun a => match a with [x; ax] =>
         let x := int_in ax x in
         Ok [bitlen x; b2z (x <? 0); b2z (Z.odd x); b2z (x =? 0); b2z (x =? 1); b2z (Z.abs x =? 1)] | _ => Panic end);
-    e "int.twos" (fun a => match a with [x; ax] => Ok (twos_bytes (int_in ax x) ax) | _ => Panic end);
-    e "int.settwos" (fun a => match a with [] => Refuse | _ => Ok [twos_value a] end);
-    e "int.bytes" (fun a => match a with [x; ax] =>
+    e "int.twos"%opname (fun a => match a with [x; ax] => Ok (twos_bytes (int_in ax x) ax) | _ => Panic end);
+    e "int.settwos"%opname (fun a => match a with [] => Refuse | _ => Ok [twos_value a] end);
+    e "int.bytes"%opname (fun a => match a with [x; ax] =>
         let x := int_in ax x in Ok (b2z (x <? 0) :: nat_bytes (Z.abs x) ax) | _ => Panic end);
-    e "int.setbytes" (fun a => match a with [] => Refuse | s :: r => Ok [(if Z.odd s then -1 else 1) * be_valueZ r] end);
-    e "int.bitwise" (fun a => match a with [x; ax; y; ay; c] =>
+    e "int.setbytes"%opname (fun a => match a with [] => Refuse | s :: r => Ok [(if Z.odd s then -1 else 1) * be_valueZ r] end);
+    e "int.bitwise"%opname (fun a => match a with [x; ax; y; ay; c] =>
         (* And/Or/Xor/Not on the two's complement of the operands resized to c *)
         let c := dflt c (Z.max ax ay) in
         let x := int_in c (int_in ax x) in let y := int_in c (int_in ay y) in
@@ -441,36 +447,36 @@ Definition table : list (Z * (list Z -> res)) :=
         let w := fun v => let m := v mod pow2 (8 * k) in if m <? pow2 (8 * k - 1) then m else m - pow2 (8 * k) in
         Ok [w (Z.land x y); w (Z.lor x y); w (Z.lxor x y); w (Z.lnot x)] | _ => Panic end);
     (* ---- numct.Modulus *)
-    e "mod.new" (fun a => match a with [m; am] => let m := trunc am m in if m =? 0 then Refuse else Ok [m; bitlen m] | _ => Panic end);
-    e "mod.mod" (fun a => match a with [m; x; ax] => Ok [trunc ax x mod m] | _ => Panic end);
-    e "mod.modi" (fun a => match a with [m; x; ax] => Ok [int_in ax x mod m] | _ => Panic end);
-    e "mod.modsym" (fun a => match a with [m; x; ax] => Ok [mod_symmetric (trunc ax x) m] | _ => Panic end);
-    e "mod.quo" (fun a => match a with [m; x; ax] => Ok [trunc (bitlen m) (trunc ax x / m)] | _ => Panic end);
-    e "mod.add" (fun a => match a with [m; x; ax; y; ay] => Ok [(trunc ax x + trunc ay y) mod m] | _ => Panic end);
-    e "mod.sub" (fun a => match a with [m; x; ax; y; ay] => Ok [(trunc ax x - trunc ay y) mod m] | _ => Panic end);
-    e "mod.mul" (fun a => match a with [m; x; ax; y; ay] => Ok [(trunc ax x * trunc ay y) mod m] | _ => Panic end);
-    e "mod.neg" (fun a => match a with [m; x; ax] => Ok [(- trunc ax x) mod m] | _ => Panic end);
-    e "mod.inv" (fun a => match a with [m; x; ax] => opt1 (modinv (trunc ax x) m) | _ => Panic end);
-    e "mod.div" (fun a => match a with [m; x; ax; y; ay] => opt1 (moddiv (trunc ax x) (trunc ay y) m) | _ => Panic end);
-    e "mod.exp" (fun a => match a with [m; x; ax; y; ay] => Ok [modpow (trunc ax x mod m) (trunc ay y) m] | _ => Panic end);
-    e "mod.expi" (fun a => match a with [m; x; ax; y; ay] =>
+    e "mod.new"%opname (fun a => match a with [m; am] => let m := trunc am m in if m =? 0 then Refuse else Ok [m; bitlen m] | _ => Panic end);
+    e "mod.mod"%opname (fun a => match a with [m; x; ax] => Ok [trunc ax x mod m] | _ => Panic end);
+    e "mod.modi"%opname (fun a => match a with [m; x; ax] => Ok [int_in ax x mod m] | _ => Panic end);
+    e "mod.modsym"%opname (fun a => match a with [m; x; ax] => Ok [mod_symmetric (trunc ax x) m] | _ => Panic end);
+    e "mod.quo"%opname (fun a => match a with [m; x; ax] => Ok [trunc (bitlen m) (trunc ax x / m)] | _ => Panic end);
+    e "mod.add"%opname (fun a => match a with [m; x; ax; y; ay] => Ok [(trunc ax x + trunc ay y) mod m] | _ => Panic end);
+    e "mod.sub"%opname (fun a => match a with [m; x; ax; y; ay] => Ok [(trunc ax x - trunc ay y) mod m] | _ => Panic end);
+    e "mod.mul"%opname (fun a => match a with [m; x; ax; y; ay] => Ok [(trunc ax x * trunc ay y) mod m] | _ => Panic end);
+    e "mod.neg"%opname (fun a => match a with [m; x; ax] => Ok [(- trunc ax x) mod m] | _ => Panic end);
+    e "mod.inv"%opname (fun a => match a with [m; x; ax] => opt1 (modinv (trunc ax x) m) | _ => Panic end);
+    e "mod.div"%opname (fun a => match a with [m; x; ax; y; ay] => opt1 (moddiv (trunc ax x) (trunc ay y) m) | _ => Panic end);
+    e "mod.exp"%opname (fun a => match a with [m; x; ax; y; ay] => Ok [modpow (trunc ax x mod m) (trunc ay y) m] | _ => Panic end);
+    e "mod.expi"%opname (fun a => match a with [m; x; ax; y; ay] =>
         let y := int_in ay y in
         let r := modpow (trunc ax x mod m) (Z.abs y) m in
         if y <? 0 then opt1 (modinv r m) else Ok [r] | _ => Panic end);
-    e "mod.sqrt" (fun a => match a with [m; x; ax] =>
+    e "mod.sqrt"%opname (fun a => match a with [m; x; ax] =>
         match modsqrt (trunc ax x) m with SqrtOk r => Ok [r] | SqrtNone => Refuse | SqrtPanic => Panic end | _ => Panic end);
-    e "mod.inrange" (fun a => match a with [m; x; ax] =>
+    e "mod.inrange"%opname (fun a => match a with [m; x; ax] =>
         let x := int_in ax x in
         Ok [b2z ((0 <=? x) && (x <? m)); b2z ((- m <=? 2 * x) && (2 * x <? m))] | _ => Panic end);
-    e "mod.isunit" (fun a => match a with [m; x; ax] => okb (Z.gcd (trunc ax x) m =? 1) | _ => Panic end);
+    e "mod.isunit"%opname (fun a => match a with [m; x; ax] => okb (Z.gcd (trunc ax x) m =? 1) | _ => Panic end);
     (* ---- nt.Jacobi: x, y, then the factorisation of y *)
-    e "jacobi" (fun a => match a with x :: y :: fs =>
+    e "jacobi"%opname (fun a => match a with x :: y :: fs =>
         match jacobi x y with
         | Some j => Ok [j; jac_spec x fs]
         | None => Refuse
         end | _ => Panic end);
     (* ---- crt *)
-    e "crt.recombine" (fun a => match a with [p; ap; q; aq; mp; amp; mq; amq] =>
+    e "crt.recombine"%opname (fun a => match a with [p; ap; q; aq; mp; amp; mq; amq] =>
         let p := trunc ap p in let q := trunc aq q in
         if p =? 0 then Panic else
         match crt_precompute p q with
@@ -478,47 +484,47 @@ Definition table : list (Z * (list Z -> res)) :=
             Ok [crt_recombine p q qinv (bitlen p + aq) (trunc amp mp) (trunc amq mq)] else Refuse
         | None => Refuse
         end | _ => Panic end);
-    e "crt.multi.serial" (fun a => let '(ps, rs) := split_half a in opt1 (crt_multi_serial ps rs));
-    e "crt.multi.parallel" (fun a => let '(ps, rs) := split_half a in opt1 (crt_multi_parallel ps rs));
+    e "crt.multi.serial"%opname (fun a => let '(ps, rs) := split_half a in opt1 (crt_multi_serial ps rs));
+    e "crt.multi.parallel"%opname (fun a => let '(ps, rs) := split_half a in opt1 (crt_multi_parallel ps rs));
     (* ---- results of arithmetic modulo n (modular.*, num.Uint, znstar): n, x, y *)
-    e "zn.mul" (fun a => match a with [n; x; y] => Ok [(x * y) mod n] | _ => Panic end);
-    e "zn.add" (fun a => match a with [n; x; y] => Ok [(x + y) mod n] | _ => Panic end);
-    e "zn.sub" (fun a => match a with [n; x; y] => Ok [(x - y) mod n] | _ => Panic end);
-    e "zn.neg" (fun a => match a with [n; x] => Ok [(- x) mod n] | _ => Panic end);
-    e "zn.exp" (fun a => match a with [n; x; y] => Ok [modpow (x mod n) y n] | _ => Panic end);
-    e "zn.expi" (fun a => match a with [n; x; y] =>
+    e "zn.mul"%opname (fun a => match a with [n; x; y] => Ok [(x * y) mod n] | _ => Panic end);
+    e "zn.add"%opname (fun a => match a with [n; x; y] => Ok [(x + y) mod n] | _ => Panic end);
+    e "zn.sub"%opname (fun a => match a with [n; x; y] => Ok [(x - y) mod n] | _ => Panic end);
+    e "zn.neg"%opname (fun a => match a with [n; x] => Ok [(- x) mod n] | _ => Panic end);
+    e "zn.exp"%opname (fun a => match a with [n; x; y] => Ok [modpow (x mod n) y n] | _ => Panic end);
+    e "zn.expi"%opname (fun a => match a with [n; x; y] =>
         let r := modpow (x mod n) (Z.abs y) n in
         if y <? 0 then opt1 (modinv r n) else Ok [r] | _ => Panic end);
-    e "zn.inv" (fun a => match a with [n; x] => opt1 (modinv x n) | _ => Panic end);
-    e "zn.div" (fun a => match a with [n; x; y] =>
+    e "zn.inv"%opname (fun a => match a with [n; x] => opt1 (modinv x n) | _ => Panic end);
+    e "zn.div"%opname (fun a => match a with [n; x; y] =>
         match modinv y n with Some yi => Ok [(x * yi) mod n] | None => Refuse end | _ => Panic end);
-    e "zn.sqrt" (fun a => match a with [n; x] =>
+    e "zn.sqrt"%opname (fun a => match a with [n; x] =>
         match modsqrt x n with SqrtOk r => Ok [r] | SqrtNone => Refuse | SqrtPanic => Panic end | _ => Panic end);
     (* ---- plain integers (num.Nat / num.Int / num.NatPlus) *)
-    e "z.arith" (fun a => match a with [x; y] => Ok [x + y; x - y; x * y] | _ => Panic end);
-    e "z.eucdiv" (fun a => match a with [x; y] => if y =? 0 then Refuse else Ok [ZEuclid.div x y; ZEuclid.modulo x y] | _ => Panic end);
-    e "z.exactdiv" (fun a => match a with [x; y] =>
+    e "z.arith"%opname (fun a => match a with [x; y] => Ok [x + y; x - y; x * y] | _ => Panic end);
+    e "z.eucdiv"%opname (fun a => match a with [x; y] => if y =? 0 then Refuse else Ok [ZEuclid.div x y; ZEuclid.modulo x y] | _ => Panic end);
+    e "z.exactdiv"%opname (fun a => match a with [x; y] =>
         if y =? 0 then Refuse else if ZEuclid.modulo x y =? 0 then Ok [ZEuclid.div x y] else Refuse | _ => Panic end);
-    e "z.cmp" (fun a => match a with [x; y] => Ok (cmp3 x y) | _ => Panic end);
-    e "z.gcd" (fun a => match a with [x; y] => Ok [Z.gcd x y] | _ => Panic end);
-    e "z.sqrt" (fun a => match a with [x] =>
+    e "z.cmp"%opname (fun a => match a with [x; y] => Ok (cmp3 x y) | _ => Panic end);
+    e "z.gcd"%opname (fun a => match a with [x; y] => Ok [Z.gcd x y] | _ => Panic end);
+    e "z.sqrt"%opname (fun a => match a with [x] =>
         if x <? 0 then Refuse else let r := Z.sqrt x in if r * r =? x then Ok [r] else Refuse | _ => Panic end);
-    e "z.shift" (fun a => match a with [x; s] => Ok [x * 2 ^ s; Z.sgn x * (Z.abs x / 2 ^ s)] | _ => Panic end);
-    e "z.mod" (fun a => match a with [x; m] => if m <=? 0 then Refuse else Ok [x mod m] | _ => Panic end);
+    e "z.shift"%opname (fun a => match a with [x; s] => Ok [x * 2 ^ s; Z.sgn x * (Z.abs x / 2 ^ s)] | _ => Panic end);
+    e "z.mod"%opname (fun a => match a with [x; m] => if m <=? 0 then Refuse else Ok [x mod m] | _ => Panic end);
     (* ---- rationals a/b, c/d (b, d > 0) *)
-    e "q.arith" (fun a => match a with [a1; b1; c1; d1] =>
+    e "q.arith"%opname (fun a => match a with [a1; b1; c1; d1] =>
         let '(sn, sd) := rat_canon (a1 * d1 + c1 * b1) (b1 * d1) in
         let '(dn, dd) := rat_canon (a1 * d1 - c1 * b1) (b1 * d1) in
         let '(mn, md) := rat_canon (a1 * c1) (b1 * d1) in
         Ok [sn; sd; dn; dd; mn; md; b2z (a1 * d1 =? c1 * b1); b2z (a1 * d1 <=? c1 * b1)] | _ => Panic end);
-    e "q.div" (fun a => match a with [a1; b1; c1; d1] =>
+    e "q.div"%opname (fun a => match a with [a1; b1; c1; d1] =>
         if c1 =? 0 then Refuse else
         let '(n, d) := rat_canon (a1 * d1) (b1 * c1) in Ok [n; d] | _ => Panic end);
-    e "q.round" (fun a => match a with [a1; b1] =>
+    e "q.round"%opname (fun a => match a with [a1; b1] =>
         let '(n, d) := rat_canon a1 b1 in
         Ok [n; d; a1 / b1; - ((- a1) / b1); b2z (d =? 1)] | _ => Panic end);
     (* ---- generated primes: p, requested bits *)
-    e "prime.check" (fun a => match a with [p; bits] =>
+    e "prime.check"%opname (fun a => match a with [p; bits] =>
         Ok [b2z (is_prime_mr p); b2z (bitlen p =? bits); p mod 4; b2z (is_prime_mr ((p - 1) / 2))] | _ => Panic end)
   ].
 
